@@ -1400,7 +1400,15 @@ RCP<const Set> Intersection::set_union(const RCP<const Set> &o) const
 {
     set_set container;
     for (auto &a : container_) {
-        container.insert(a->set_union(o));
+        auto temp = a->set_union(o);
+        // (A n B) u o = (A u o) n (B u o) only pays off if every member
+        // absorbs `o`: set_intersection() distributes over a member that is
+        // still a Union and would come back here (unbounded recursion)
+        if (is_a<Union>(*temp)) {
+            return SymEngine::make_set_union(
+                {rcp_from_this_cast<const Set>(), o});
+        }
+        container.insert(temp);
     }
     return SymEngine::set_intersection(container);
 }
